@@ -305,6 +305,17 @@ def main():
             violations.append(dict(kind="broken-theorem", clause="Print Assumptions run failed",
                                    detail=pa_out[-1500:], case=None))
 
+    # 3b. independent re-check of the compiled theorems (thorough tier): coqchk -o lists every axiom the
+    #     property module and everything it depends on rely on
+    coqchk_axioms = None
+    if tier == "thorough" and ok_props:
+        rc, out = sh(["coqchk", "-silent", "-o", "-Q", COQ, "DF", f"DF.props.Properties_{pid}"], 2400)
+        if rc == 0 and "* Axioms:" in out:
+            blk = out.split("* Axioms:")[1].split("* Constants/Inductives")[0]
+            coqchk_axioms = [l.strip() for l in blk.splitlines() if l.strip() and l.strip() != "<none>"]
+        else:
+            violations.append(dict(kind="broken-theorem", clause="coqchk re-check failed", detail=out[-1500:], case=None))
+
     # 4. implementation run
     extra = ["--replay", a.replay] if a.replay else None
     data, txt = run_impl(pid, tier, seed, extra)
@@ -421,6 +432,7 @@ def main():
             rule=spec.get("rule", ""), samples=samples,
             case_kinds=hist, stats=data.get("stats", {}),
             constants_source=const_src,
+            coqchk_axioms=coqchk_axioms,
             known_findings_hit=sorted(known_hits),
             exhaustive=bool(data.get("exhaustive", False)),
             coq_eval_s=round(coq_s, 2),
